@@ -14,6 +14,7 @@ from mc import tx
 from mc.vloop import IdleForever
 
 D = 1.0          # nominal computation duration
+_REAL = {'rcts': asyncio.run_coroutine_threadsafe}
 KEY = 'K'
 
 
@@ -89,9 +90,20 @@ def run_world(aiu, w, prefix=(), expect=None, budget=30000):
             sched.log('inv_ret', inv, key, r)
             return r
         except asyncio.CancelledError:
-            sched.log('inv_cancelled', inv, key)
+            if not sched.aborted:
+                sched.log('inv_cancelled', inv, key)
             raise
     f = aiu.threadsafe_async_cache(raw, **cachekw)
+
+    # observe cross-loop proxy waits (who waits inside which loop), whatever name the library uses
+    real_rcts = _REAL['rcts']
+
+    def logged_rcts(coro, loop):
+        sched.log('proxy', id(asyncio.current_task()), getattr(loop, 'vname', None))
+        return real_rcts(coro, loop)
+    aiu.run_coro_ts = logged_rcts
+    asyncio.run_coroutine_threadsafe = logged_rcts
+    asyncio.tasks.run_coroutine_threadsafe = logged_rcts
 
     def make_thread(ti, spec):
         lname = f'L{ti}'
@@ -104,8 +116,12 @@ def run_world(aiu, w, prefix=(), expect=None, budget=30000):
                 v = await f(key)
                 out = ('ret', v)
             except asyncio.CancelledError:
+                if sched.aborted:
+                    raise
                 sched.log('call_end', cid, key, ('cancelled',), id(task))
                 raise
+            except tx.SchedAbort:
+                raise                      # the execution is being torn down: not an outcome
             except BaseException as e:   # noqa
                 out = ('exc', e)
             sched.log('call_end', cid, key, out, id(task))
@@ -171,6 +187,18 @@ def run_world(aiu, w, prefix=(), expect=None, budget=30000):
                                     raise
                                 sched.log('collect_error', lname, repr(e))
                     sched.log('collect_end', lname)
+            elif life == 'L6':      # hand-driven loop paused (stopped, open) and resumed later
+                loop = factory()
+                try:
+                    tasks = [loop.create_task(c) for c in callers()]
+                    sched.keep.extend(tasks)
+                    loop.run_until_complete(asyncio.wait(tasks, timeout=spec.get('tmo', D / 2)))
+                    sched.log('paused', lname)
+                    sched.sleep(spec.get('pause', 2 * D))
+                    sched.log('resumed', lname)
+                    loop.run_until_complete(asyncio.gather(*tasks, return_exceptions=True))
+                finally:
+                    loop.close()
             elif life == 'L4':      # stopped from another thread at an instant, then shut down
                 loop = factory()
                 sched.loops[lname] = loop
@@ -206,7 +234,12 @@ def run_world(aiu, w, prefix=(), expect=None, budget=30000):
                 except RuntimeError:
                     pass
             sched.spawn(stopper, name=f'S{ti}')
-    aborted = sched.run()
+    try:
+        aborted = sched.run()
+    finally:
+        aiu.run_coro_ts = _REAL['rcts']
+        asyncio.run_coroutine_threadsafe = _REAL['rcts']
+        asyncio.tasks.run_coroutine_threadsafe = _REAL['rcts']
     x = tx.Execution()
     x.choices, x.aborted, x.trace, x.sched = sched.choices, aborted, sched.trace, sched
     x.leaked = getattr(sched, 'leaked', 0)
@@ -239,10 +272,17 @@ class Monitor:
         inv_end = {}
         failed_invs = {}
         closed_loops = set()
+        run_iv = {}          # loop name -> list of [t0, t1] during which it was running
+        proxies = {}         # caller task id -> list of (t, target loop)
+        death_with_open = set()     # (time, loop) deaths that retired an open invocation
         for ev in tr:
             t, tid, kind = ev[0], ev[1], ev[2]
             if kind == 'loop':
                 lname, what = ev[3], ev[4]
+                if what == 'run_begin':
+                    run_iv.setdefault(lname, []).append([t, None])
+                elif what == 'run_end' and run_iv.get(lname) and run_iv[lname][-1][1] is None:
+                    run_iv[lname][-1][1] = t
                 if what in ('run_end', 'closed', 'closing'):
                     if what != 'run_end':
                         closed_loops.add(lname)
@@ -255,6 +295,7 @@ class Monitor:
                         if d['loop'] == lname and inv not in retired:
                             retired.add(inv)
                             d['retired_at'] = t
+                            death_with_open.add((t, lname, d['key']))
             elif kind == 'inv_begin':
                 inv, key, lname, task = ev[3], ev[4], ev[5], ev[6]
                 others = [i for i, d in open_inv.items() if d['key'] == key and i not in retired]
@@ -281,6 +322,8 @@ class Monitor:
                     first_ok[key] = (inv, ev[5])
                 if kind == 'inv_raise':
                     failed_invs[inv] = t
+            elif kind == 'proxy':
+                proxies.setdefault(ev[3], []).append((t, ev[4]))
             elif kind == 'own_timeout_scope':
                 own_timeout_tasks.add(ev[3])
             elif kind == 'call_begin':
@@ -362,14 +405,32 @@ class Monitor:
             if c['t1'] is None:
                 continue
             ivs = key_open_intervals.get(c['key'], [])
-            gap = self._gap(c['t0'], c['t1'], ivs)
+            # only time during which the caller's own loop was running counts (a paused loop cannot
+            # make progress whatever the library does)
+            gap = 0.0
+            for a, b in run_iv.get(c['loop'], []):
+                b = tend if b is None else b
+                lo, hi = max(a, c['t0']), min(b, c['t1'])
+                if hi > lo:
+                    gap += self._gap(lo, hi, ivs)
             # loop deaths during the caller's lifetime of loops that hosted an invocation of its key
-            hosts = {lp for (_, _, lp) in ivs}
-            deaths = {ln for (t, ln, what) in loop_death_times
-                      if ln in hosts and ln != c['loop'] and c['t0'] - 1e-9 <= t <= c['t1'] + 1e-9}
+            # a loop death excuses up to 60 s of waiting only if it killed an open computation of the key
+            # or if this caller's latest cross-loop wait was running inside that loop
+            deaths = set()
+            for (t, ln, what) in loop_death_times:
+                if ln == c['loop'] or not (c['t0'] - 1e-9 <= t <= c['t1'] + 1e-9):
+                    continue
+                mid = (t, ln, c['key']) in death_with_open
+                px_ = [pl for (pt, pl) in proxies.get(c['task'], []) if pt <= t + 1e-9]
+                if mid or (px_ and px_[-1] == ln):
+                    deaths.add(ln)
             allowed = 60.0 * len(deaths)
             c['gap'], c['deaths'] = gap, len(deaths)
             if gap > allowed + 1e-6:
+                self.viol['C06'].append(('bystander_delayed',
+                                         f'caller {cid} on {c["loop"]} lived [{c["t0"]}, {c["t1"]}] and idled '
+                                         f'{gap} virtual s with no invocation of its key in progress (allowed '
+                                         f'{allowed}): delayed beyond a recomputation'))
                 self.viol['C05'].append(('caller_stalled',
                                          f'caller {cid} on {c["loop"]} lived [{c["t0"]}, {c["t1"]}] and spent '
                                          f'{gap} virtual s waiting while no invocation of its key was in progress '
@@ -442,6 +503,13 @@ def worlds(tier, prop):
                 [dict(life=la, m=1, offset=0.0, **kw), dict(life='L0', m=1, offset=0.0),
                  dict(life='L0', m=1, offset=offc)],
                 ['sleepD', 'sleepD', 'sleepD', 'ret0'], pb=1 if q else 2)
+    if prop in ('C05', 'C06'):      # C01 stipulates that stopped loops are not restarted
+        for m in (1, 2):
+            for offb in (D, D / 2):
+                for s0 in ('sleepD', 'sleepD_raise'):
+                    add(f'2t/L6/m{m}/{s0}/offb{offb}',
+                        [dict(life='L6', m=m, offset=0.0, tmo=D / 2, pause=2 * D), dict(life='L0', m=1, offset=offb)],
+                        [s0, 'sleepD', 'ret0'], pb=1)
     add('3t/L0/zero', [dict(life='L0', m=1, offset=0.0)] * 3, ['ret0', 'ret0', 'ret0'], pb=1 if q else 2)
     add('3t/L0/raise', [dict(life='L0', m=1, offset=0.0)] * 3, ['yield_raise', 'yield', 'ret0'], pb=1 if q else 2)
     if not q:
